@@ -338,7 +338,24 @@ def discharge(o, timeout_ms=20000, use_cvc5=True):
             o.detail = "cover: solver returned unknown; reachability established incrementally"
         return o
     s.add(z3.Not(o.goal))
-    r = s.check()
+    r = None
+    if len(o.hyps) > 40:
+        # cone of influence first: proving the goal from FEWER hypotheses is sound and keeps non-linear queries small
+        for hops in (1, 2):
+            sub = relevant_hyps(o.hyps, o.goal, hops)
+            if len(sub) >= len(o.hyps):
+                break
+            s2 = z3.Solver()
+            s2.set("timeout", min(timeout_ms, 8000))
+            for h in sub:
+                s2.add(h)
+            s2.add(z3.Not(o.goal))
+            if s2.check() == z3.unsat:
+                r = z3.unsat
+                o.detail = f"discharged from {len(sub)} of {len(o.hyps)} hypotheses (cone of influence)"
+                break
+    if r is None:
+        r = s.check()
     o.backend = "z3"
     if r == z3.unsat:
         o.status = "discharged"
@@ -420,6 +437,108 @@ def _robust(f, rel, positive):
 
 def _margin_constraints(goal, rel):
     return [_robust(goal, rel, False)]
+
+
+def _symbols(f, cache={}):
+    i = f.get_id()
+    if i in cache:
+        return cache[i]
+    out = set()
+    seen = set()
+    stack = [f]
+    while stack:
+        x = stack.pop()
+        xi = x.get_id()
+        if xi in seen:
+            continue
+        seen.add(xi)
+        if z3.is_app(x) and x.decl().kind() == z3.Z3_OP_UNINTERPRETED:
+            out.add(x.decl().name())
+        stack.extend(x.children())
+    if len(cache) > 200000:
+        cache.clear()
+    cache[i] = out
+    return out
+
+
+def relevant_hyps(hyps, goal, hops):
+    """Hypotheses within `hops` symbol-sharing steps of the goal.  Symbols occurring in a large share of the
+    hypotheses (settings such as the population) do not propagate relevance; hypotheses that only talk about
+    such symbols and the goal's own symbols are always kept."""
+    hs = [(_symbols(h)) for h in hyps]
+    freq = {}
+    for h in hs:
+        for x in h:
+            freq[x] = freq.get(x, 0) + 1
+    limit = max(25, len(hyps) // 5)
+    hubs = {x for x, n in freq.items() if n > limit}
+    gsyms = set(_symbols(goal))
+    syms = set(gsyms) - hubs
+    if not syms:
+        syms = set(gsyms)
+    chosen = [False] * len(hyps)
+    for k, h in enumerate(hs):
+        if h and h <= (hubs | gsyms) and len(h - hubs) <= 1:
+            chosen[k] = True
+    for _ in range(hops):
+        new = set()
+        for k, h in enumerate(hs):
+            if not chosen[k] and (h - hubs) & syms:
+                chosen[k] = True
+                new |= (h - hubs)
+        syms |= new
+    return [h for k, h in enumerate(hyps) if chosen[k]]
+
+
+def _input_consts(fs):
+    """Uninterpreted arithmetic constants named by the contract (no '!': not engine-generated)."""
+    seen, out = set(), {}
+    stack = list(fs)
+    while stack:
+        x = stack.pop()
+        i = x.get_id()
+        if i in seen:
+            continue
+        seen.add(i)
+        if z3.is_const(x) and x.decl().kind() == z3.Z3_OP_UNINTERPRETED and z3.is_arith(x):
+            out[x.decl().name()] = x
+        stack.extend(x.children())
+    return [out[k] for k in sorted(out)]
+
+
+def model_by_concretisation(hyps, neg_goal, tries=40, seed=0):
+    """Model search for non-linear obligations the solvers leave open: fix a random subset of the input
+    constants to simple rationals (which makes the rest linear) and re-check.  Only ever used to find a
+    counter-model for the native replay; never to discharge anything."""
+    import random
+
+    rnd = random.Random(seed)
+    consts = _input_consts(list(hyps) + [neg_goal])
+    pool = ["0", "1", "2", "3", "1/2", "3/5", "4/5", "10", "100", "7", "1/10", "25", "1000", "3/2"]
+    s = z3.Solver()
+    s.set("timeout", 1500)
+    for h in hyps:
+        s.add(h)
+    s.add(neg_goal)
+    for t in range(tries):
+        s.push()
+        frac_fixed = rnd.choice([0.4, 0.6, 0.8, 1.0])
+        for c in consts:
+            if rnd.random() < frac_fixed:
+                v = rnd.choice(pool)
+                if z3.is_int(c):
+                    if "/" in v:
+                        continue
+                    s.add(c == z3.IntVal(int(v)))
+                else:
+                    s.add(c == z3.RealVal(v))
+        r = s.check()
+        if r == z3.sat:
+            m = s.model()
+            s.pop()
+            return m
+        s.pop()
+    return None
 
 
 def robust_models(s, goal):
